@@ -1,19 +1,32 @@
-//! C18 end-to-end: `e2e timestamp n=<nodes> sh=<shards> threads=<t> tasks=<W> per=<k> explicit=<every m-th|0> seed=<s>`
+//! C18 end-to-end: `e2e timestamp n=<nodes> sh=<shards> threads=<t> tasks=<W> per=<k> explicit=<every m-th|0>
+//! gen=<mono|script> evict=<M|0> ov=<F|0> spec=<0|1> seed=<s>`
 //!
-//! A Session with `SessionBuilder::timestamp_generator(MonotonicTimestampGenerator)` on a `threads`-thread runtime; W
-//! tasks run concurrently, each performing `per` non-idempotent writes one after another (EXECUTE / QUERY / BATCH in
-//! turn). Every `explicit`-th write of a task instead carries `set_timestamp(Some(t))` with a boundary-heavy t.
+//! A Session with `SessionBuilder::timestamp_generator(..)` - the MonotonicTimestampGenerator, or a scripted generator
+//! (`gen=script`: base + k*step, every value handed out is recorded) - on a `threads`-thread runtime; W tasks run
+//! concurrently, each performing `per` writes one after another (EXECUTE / QUERY / BATCH in turn). Every `explicit`-th
+//! write of a task carries `set_timestamp(Some(t))` with a boundary-heavy t. Fault histories, all through the real
+//! Session / pool / connection:
+//!   `evict=M`  every node forgets its prepared statements before each M-th EXECUTE/BATCH frame it receives, so that
+//!              frame is answered UNPREPARED and the driver re-prepares and RE-SENDS it;
+//!   `ov=F`     every F-th statement frame (cluster-wide) is answered Overloaded; the statements are marked idempotent,
+//!              so the retry policy sends the request AGAIN on another target;
+//!   `spec=1`   speculative execution (2 extra executions, 3 ms apart; statements idempotent) while every 4th frame is
+//!              answered only after 12 ms, so SPECULATIVE COPIES are sent.
 //!
-//! ORACLE at the nodes (C18's statement):
-//!  * every write frame carries a timestamp; the generated ones are pairwise distinct over the whole cluster;
-//!  * along each task's own sequence of writes the generated timestamps strictly increase;
-//!  * a write with an explicitly set timestamp arrives with exactly that timestamp.
+//! ORACLE at the nodes (C18's statement), over EVERY frame of a write that arrives at any node - first send, retries,
+//! re-sent after re-preparation, speculative copies:
+//!  * every frame of a write with an explicitly set timestamp carries exactly that timestamp;
+//!  * every other write frame carries a timestamp (with `gen=script`: one the generator handed out); no timestamp is
+//!    carried by two different writes; along each task's own sequence of writes the generated timestamps strictly
+//!    increase (every timestamp of a later write exceeds every timestamp of an earlier one).
 use super::common::*;
 use crate::mockcluster::*;
-use crate::mocknode::{BatchStmt, Parsed};
+use crate::mocknode::{BatchStmt, Parsed, RESP_ERROR, body_unprepared};
 use crate::rng::Rng;
 use crate::{Ctx, Tier};
-use std::sync::Arc;
+use std::collections::HashSet;
+use std::sync::atomic::{AtomicI64, Ordering};
+use std::sync::{Arc, Mutex};
 use std::time::Duration;
 
 pub fn generate(rng: &mut Rng, tier: Tier, emit: &mut dyn FnMut(String)) {
@@ -27,6 +40,30 @@ pub fn generate(rng: &mut Rng, tier: Tier, emit: &mut dyn FnMut(String)) {
             1 + rng.below(8),
             4 + rng.below(if tier == Tier::Quick { 20 } else { 60 }),
             *rng.pick(&[0u64, 3, 5]),
+            rng.below(1 << 32)
+        ));
+    }
+    // fault histories: re-sent after UNPREPARED, retried after Overloaded, speculative copies
+    let n_fault = if tier == Tier::Quick { 24 } else { 240 };
+    for i in 0..n_fault {
+        let (evict, ov, spec) = match i % 4 {
+            0 => (2 + rng.below(4), 0, 0),
+            1 => (0, 2 + rng.below(5), 0),
+            2 => (0, 0, 1),
+            _ => (2 + rng.below(4), 3 + rng.below(5), rng.below(2)),
+        };
+        emit(format!(
+            "e2e timestamp n={} sh={} threads={} tasks={} per={} explicit={} gen={} evict={} ov={} spec={} seed={}",
+            1 + rng.below(3),
+            *rng.pick(&[0u64, 0, 2]),
+            *rng.pick(&[1u64, 2, 4]),
+            1 + rng.below(4),
+            6 + rng.below(if tier == Tier::Quick { 12 } else { 30 }),
+            *rng.pick(&[1u64, 2, 2, 3, 4]),
+            rng.pick(&["mono", "script"]),
+            evict,
+            ov,
+            spec,
             rng.below(1 << 32)
         ));
     }
@@ -69,6 +106,29 @@ fn write_of(r: &Req) -> Option<(usize, usize, Option<i64>)> {
     }
 }
 
+/// `gen=script`: base + k*step; records what it hands out.
+struct ScriptedGenerator {
+    next: AtomicI64,
+    step: i64,
+    handed: Mutex<HashSet<i64>>,
+}
+
+impl scylla::policies::timestamp_generator::TimestampGenerator for ScriptedGenerator {
+    fn next_timestamp(&self) -> i64 {
+        let v = self.next.fetch_add(self.step, Ordering::SeqCst);
+        self.handed.lock().unwrap().insert(v);
+        v
+    }
+}
+
+struct NodeState {
+    held: Vec<HashSet<Vec<u8>>>,
+    stmt_frames: Vec<u64>,
+    all_frames: u64,
+    unprepared: u64,
+    overloaded: u64,
+}
+
 pub fn run(words: &[&str], ctx: &mut Ctx) -> String {
     let Some(p) = Params::parse(words) else { return "bad-case".into() };
     let (Some(n), Some(sh), Some(threads), Some(tasks), Some(per), Some(explicit), Some(seed)) = (
@@ -82,25 +142,86 @@ pub fn run(words: &[&str], ctx: &mut Ctx) -> String {
     ) else {
         return "bad-case".into();
     };
+    let (Some(evict), Some(ov), Some(spec)) = (p.num_or("evict", 0), p.num_or("ov", 0), p.num_or("spec", 0)) else { return "bad-case".into() };
+    let gen_kind = p.str("gen").unwrap_or("mono");
     if !(1..=8).contains(&n) || sh > 8 || !(1..=8).contains(&threads) || !(1..=64).contains(&tasks) || !(1..=2000).contains(&per) {
         return "bad-case".into();
     }
+    if !["mono", "script"].contains(&gen_kind) || evict == 1 || ov == 1 || spec > 1 {
+        // (evict=1 / ov=1 would refuse every frame: no request could ever complete)
+        return "bad-case".into();
+    }
     let (tasks, per, explicit) = (tasks as usize, per as usize, explicit as usize);
-    let shape = Shape { nodes: n as usize, dcs: 1, racks: 1, shards: sh as u16, msb: 12, vnodes: 2, strat: Strat::Simple(1), seed };
+    let n = n as usize;
+    let shape = Shape { nodes: n, dcs: 1, racks: 1, shards: sh as u16, msb: 12, vnodes: 2, strat: Strat::Simple(n.min(2)), seed };
+    let idempotent = ov != 0 || spec != 0;
+    let state = Arc::new(Mutex::new(NodeState { held: vec![HashSet::new(); n], stmt_frames: vec![0; n], all_frames: 0, unprepared: 0, overloaded: 0 }));
+    let st_h = Arc::clone(&state);
+    let handler: ClusterHandler = Box::new(move |r: &Req| {
+        let mut st = st_h.lock().unwrap();
+        let ids: Vec<Vec<u8>> = match &r.parsed {
+            Parsed::Prepare { text } => {
+                st.held[r.node].insert(stmt_id(text));
+                return vec![Act::Respond(crate::mocknode::RESP_RESULT, std_prepared(text))];
+            }
+            Parsed::Execute { id, .. } => vec![id.clone()],
+            Parsed::Batch { statements, .. } => statements.iter().filter_map(|s| if let BatchStmt::Prepared(id, _) = s { Some(id.clone()) } else { None }).collect(),
+            Parsed::Query { .. } => vec![],
+            _ => return vec![act_void()],
+        };
+        st.all_frames += 1;
+        if !ids.is_empty() {
+            st.stmt_frames[r.node] += 1;
+            if evict != 0 && st.stmt_frames[r.node] % evict == 0 {
+                st.held[r.node].clear();
+            }
+            if let Some(missing) = ids.iter().find(|id| !st.held[r.node].contains(*id)) {
+                st.unprepared += 1;
+                return vec![Act::Respond(RESP_ERROR, body_unprepared(missing))];
+            }
+        }
+        if ov != 0 && st.all_frames % ov == 0 {
+            st.overloaded += 1;
+            return vec![act_error(0x1001, "overloaded", &[])];
+        }
+        if spec != 0 && st.all_frames % 4 == 0 {
+            return vec![Act::Delay(Duration::from_millis(12)), act_void()];
+        }
+        vec![act_void()]
+    });
+    let scripted = Arc::new(ScriptedGenerator {
+        next: AtomicI64::new(*Rng::new(seed ^ 0x6765_6e).pick(&[0i64, 1, -1000, 1_700_000_000_000_000, i64::MAX / 2])),
+        step: 1 + (seed % 1000) as i64,
+        handed: Mutex::new(HashSet::new()),
+    });
     let rt = runtime(threads as usize);
     rt.block_on(async {
-        use scylla::policies::timestamp_generator::MonotonicTimestampGenerator;
+        use scylla::policies::timestamp_generator::{MonotonicTimestampGenerator, TimestampGenerator};
         use scylla::statement::batch::{Batch, BatchType};
         use scylla::statement::unprepared::Statement;
-        let cluster = MockCluster::start(shape.topology(), with_std_prepare(|_| vec![act_void()])).await;
-        let session = match connect(&cluster, |b| b.timestamp_generator(Arc::new(MonotonicTimestampGenerator::new()))).await {
+        let cluster = MockCluster::start(shape.topology(), handler).await;
+        let generator: Arc<dyn TimestampGenerator> = if gen_kind == "script" { scripted.clone() } else { Arc::new(MonotonicTimestampGenerator::new()) };
+        let session = match connect(&cluster, |b| {
+            let b = b.timestamp_generator(Arc::clone(&generator));
+            if spec != 0 {
+                use scylla::client::execution_profile::ExecutionProfile;
+                use scylla::policies::speculative_execution::SimpleSpeculativeExecutionPolicy;
+                let pol = SimpleSpeculativeExecutionPolicy { max_retry_count: 2, retry_interval: Duration::from_millis(3) };
+                b.default_execution_profile_handle(ExecutionProfile::builder().speculative_execution_policy(Some(Arc::new(pol))).build().into_handle())
+            } else {
+                b
+            }
+        })
+        .await
+        {
             Ok(s) => Arc::new(s),
             Err(skip) => return skip,
         };
-        let ps = match session.prepare(INSERT).await {
+        let mut ps = match session.prepare(INSERT).await {
             Ok(ps) => ps,
             Err(_) => return "e2e-skip prepare-failed".to_owned(),
         };
+        ps.set_is_idempotent(idempotent);
         let is_explicit = move |i: usize| explicit != 0 && i % explicit == explicit - 1;
         let mut handles = Vec::new();
         for task in 0..tasks {
@@ -118,12 +239,14 @@ pub fn run(words: &[&str], ctx: &mut Ctx) -> String {
                         1 => {
                             let mut st = Statement::new(text_of(task, i));
                             st.set_timestamp(ts);
+                            st.set_is_idempotent(idempotent);
                             session.query_unpaged(st, ()).await.is_ok()
                         }
                         _ => {
                             let mut b = Batch::new(BatchType::Unlogged);
                             b.append_statement(ps.clone());
                             b.set_timestamp(ts);
+                            b.set_is_idempotent(idempotent);
                             session.batch(&b, ((key_of(task, i), 0i32),)).await.is_ok()
                         }
                     };
@@ -136,16 +259,21 @@ pub fn run(words: &[&str], ctx: &mut Ctx) -> String {
         }
         let mut errors = 0;
         for h in handles {
-            match tokio::time::timeout(Duration::from_secs(30), h).await {
+            match tokio::time::timeout(Duration::from_secs(60), h).await {
                 Ok(Ok(e)) => errors += e,
                 _ => ctx.fail("e2e timestamp: a writer task did not finish"),
             }
         }
+        // speculative copies that lost the race may still be on their way
+        if spec != 0 {
+            tokio::time::sleep(Duration::from_millis(30)).await;
+        }
         // ------------------------------------------------------------------ oracle
-        let mut generated: Vec<(i64, usize, usize)> = Vec::new();
-        let mut per_task: Vec<Vec<(usize, i64)>> = vec![Vec::new(); tasks];
+        // per write: the timestamps of all its frames
+        let mut seen: Vec<Vec<Vec<i64>>> = vec![vec![Vec::new(); per]; tasks];
         let mut n_frames = 0;
         let mut n_explicit = 0;
+        let handed = scripted.handed.lock().unwrap().clone();
         for f in cluster.user_frames() {
             let Some((task, i, ts)) = write_of(&f) else { continue };
             if task >= tasks || i >= per {
@@ -160,35 +288,66 @@ pub fn run(words: &[&str], ctx: &mut Ctx) -> String {
                 n_explicit += 1;
                 let want = explicit_ts(seed, task, i);
                 if ts != want {
-                    ctx.fail(format!("e2e timestamp: write {} of task {} was given set_timestamp(Some({})) and arrived with {}", i, task, want, ts));
+                    let nth = seen[task][i].len() + 1;
+                    ctx.fail(format!(
+                        "e2e timestamp: write {} of task {} was given set_timestamp(Some({})); its frame #{} ({}) arrived at node {} with {}",
+                        i,
+                        task,
+                        want,
+                        nth,
+                        if nth == 1 { "first send" } else { "a re-send: retry / after re-preparation / speculative copy" },
+                        f.node,
+                        ts
+                    ));
                 }
+                seen[task][i].push(ts);
             } else {
-                generated.push((ts, task, i));
-                per_task[task].push((i, ts));
+                if gen_kind == "script" && !handed.contains(&ts) {
+                    ctx.fail(format!("e2e timestamp: write {} of task {} arrived with timestamp {}, which the session's generator never handed out", i, task, ts));
+                }
+                seen[task][i].push(ts);
+            }
+        }
+        let mut generated: Vec<(i64, usize, usize)> = Vec::new();
+        for task in 0..tasks {
+            let mut prev: Option<(usize, i64)> = None; // (write, its largest timestamp)
+            for i in 0..per {
+                if is_explicit(i) || seen[task][i].is_empty() {
+                    continue;
+                }
+                let mut v = seen[task][i].clone();
+                v.sort();
+                v.dedup();
+                for t in &v {
+                    generated.push((*t, task, i));
+                }
+                if let Some((pi, pmax)) = prev {
+                    if v[0] <= pmax {
+                        ctx.fail(format!("e2e timestamp: task {}: write {} was sent with timestamp {}, its later write {} with {}", task, pi, pmax, i, v[0]));
+                    }
+                }
+                prev = Some((i, *v.last().unwrap()));
             }
         }
         generated.sort();
         for w in generated.windows(2) {
             if w[0].0 == w[1].0 {
                 ctx.fail(format!(
-                    "e2e timestamp: the generated timestamp {} was used twice: write {} of task {} and write {} of task {}",
+                    "e2e timestamp: the generated timestamp {} was used by two writes: write {} of task {} and write {} of task {}",
                     w[0].0, w[0].2, w[0].1, w[1].2, w[1].1
                 ));
                 break;
             }
         }
-        for (task, v) in per_task.iter_mut().enumerate() {
-            v.sort();
-            for w in v.windows(2) {
-                if w[1].1 <= w[0].1 {
-                    ctx.fail(format!(
-                        "e2e timestamp: task {}: write {} got timestamp {}, its later write {} got {}",
-                        task, w[0].0, w[0].1, w[1].0, w[1].1
-                    ));
-                    break;
-                }
-            }
-        }
-        format!("timestamp writes={} generated={} explicit={} failed={}", n_frames, generated.len(), n_explicit, errors)
+        let st = state.lock().unwrap();
+        format!(
+            "timestamp writes={} frames={} explicit={} unprepared={} overloaded={} failed={}",
+            tasks * per,
+            n_frames,
+            n_explicit,
+            st.unprepared,
+            st.overloaded,
+            errors
+        )
     })
 }
